@@ -176,12 +176,15 @@ def run(ctx):
                  "%s does not run as the indexer address" % ln, sample={"rule": "WIRE", "sink": ln + ".from", "origin": "INDEXER_ADDRESS"})
     # ---- provider: txid handed to the precompile, Prague gating
     run = [f for f in F.fns.values() if (f.j.get("trait") or "").endswith("PrecompileProvider") and f.j.get("method") == "run"]
-    for f in run:
+    for f0 in run:
+        f = f0
         ok = False
-        for b in f.blocks:
+        # the call context may be built in the provider itself, in a private helper of it, or in a closure (`.map(|p| ..)`)
+        for g_ in [F.inlined(f0)] + list(F.descendants(f0.id)):
+          for b in g_.blocks:
             for s in b["stmts"]:
                 if s["k"] == "assign" and s["rv"]["k"] == "agg" and (s["rv"].get("adt") or "").endswith("PrecompileCall"):
-                    t = W.rvalue_origin(f, s["rv"], 0, frozenset(), 30)
+                    t = W.resolve(F, g_, W.rvalue_origin(g_, s["rv"], 0, frozenset(), 30))
                     m = dict(zip(t[3], t[2]))
                     ok = mentions(m.get("current_op_return_tx_id", ("x",)), "op_return_tx_id") and mentions(m["current_op_return_tx_id"], "self")
                     ok2 = mentions(m.get("block_height", ("x",)), "number")
@@ -243,7 +246,42 @@ def run(ctx):
                 for lf in leaves(a):
                     if lf[0] == "const" and isinstance(lf[1], str):
                         consts.add(lf[1].split("::")[-1])
-        R.ob({"PRAGUE_ACTIVATION_HEIGHT_MAINNET", "PRAGUE_ACTIVATION_HEIGHT_SIGNET"} <= consts, "GUARD", gs.where(), "GUARD|get_evm_spec|heights",
+        # comparisons whose result is returned rather than branched on (a predicate helper read in place)
+        for b_ in gs.blocks:
+            if b_.get("cleanup"):
+                continue
+            for s_ in b_["stmts"]:
+                if s_["k"] == "assign" and s_["rv"]["k"] == "bin" and s_["rv"].get("op") in ("Ge", "Gt", "Le", "Lt"):
+                    for o_ in s_["rv"]["ops"]:
+                        for lf in leaves(origin(gs, o_)):
+                            if lf[0] == "const" and isinstance(lf[1], str):
+                                consts.add(lf[1].split("::")[-1])
+        ok_heights = {"PRAGUE_ACTIVATION_HEIGHT_MAINNET", "PRAGUE_ACTIVATION_HEIGHT_SIGNET"} <= consts
+        if not ok_heights:
+            # the two heights as fields of one constant aggregate (`const PRAGUE: Heights = Heights { mainnet, signet }`): the
+            # comparison must reach a constant that holds both pinned values
+            try:
+                pins = ctx.table("consensus_v2.json")["constants"]
+                want = {pins["const engine::hardforks::PRAGUE_ACTIVATION_HEIGHT_MAINNET"], pins["const engine::hardforks::PRAGUE_ACTIVATION_HEIGHT_SIGNET"]}
+            except Exception:
+                want = None
+            by_name = {c_["name"]: c_ for c_ in F.j["consts"]}
+            import re as _re
+            for nm in list(consts):
+                mh = _re.search(r"alloc:([0-9a-f]+)", nm)
+                if mh and len(mh.group(1)) % 16 == 0 and want:
+                    words = {int.from_bytes(bytes.fromhex(mh.group(1)[i:i + 16]), "little") for i in range(0, len(mh.group(1)), 16)}
+                    if want <= words:
+                        ok_heights = True
+            for nm in list(consts):
+                for full, c_ in by_name.items():
+                    if full.split("::")[-1] == nm:
+                        hx = (c_.get("indirect") or {}).get("hex")
+                        if hx and len(hx) % 16 == 0 and want:
+                            words = {int.from_bytes(bytes.fromhex(hx[i:i + 16]), "little") for i in range(0, len(hx), 16)}
+                            if want <= words:
+                                ok_heights = True
+        R.ob(ok_heights, "GUARD", gs.where(), "GUARD|get_evm_spec|heights",
              "spec selection no longer compares the height with both activation constants (%s)" % sorted(consts), sample={"rule": "GUARD", "fn": "get_evm_spec", "consts": sorted(consts)})
         for (b, s, fm, line) in forms:
             # block - H >= 0 edge must select PRAGUE: edge form  H - block <= 0
